@@ -365,6 +365,7 @@ type peer struct {
 	stopped                         bool                // the group is not registered on the leader (never added, or stopped by IsExpire)
 	born                            bool                // the group's directory exists on the leader
 
+	parkedLive      bool // the loop parked although the follower was live again and its online notification had been handled (steppre)
 	lostWake        bool // an online notification was delivered after the loop marked itself suspended and the loop stayed parked
 	putFailOnce     bool // the next Put on this follower's queue fails
 	fcloseDisturbed bool // the follower partition was destroyed under the (maybe open) stream; until the next handshake
@@ -398,6 +399,10 @@ type world struct {
 	winPeer  *peer
 	winFired bool
 	winDone  chan struct{} // closed when the handler (handleNodeStateChangeEvent) has returned
+	// the window between IsReady's liveness test and its isSuspend CAS (yield point c08-offline-seen)
+	prePeer    *peer
+	preFired   bool
+	preHandled bool // the handler returned while the loop was held at the yield point
 
 	// per-step instrumentation
 	fault                             string
@@ -837,6 +842,32 @@ func (w *world) windowHook() {
 	}
 }
 
+// preHook runs on the replica loop's goroutine at the yield point between IsReady's liveness test
+// (`GetLiveNode` said: not live) and `isSuspend.CompareAndSwap(false, true)`: the state manager handles the
+// follower's online event now — the node is live again and the watcher is called — and only when the watcher
+// has returned does the loop go on to its CAS and its receive.
+func (w *world) preHook() {
+	p := w.prePeer
+	if p == nil || w.preFired {
+		return
+	}
+	w.preFired = true
+	p.live = true
+	fn := w.sm.fns[p.id]
+	done := make(chan struct{})
+	go func() {
+		defer close(done)
+		if fn != nil {
+			fn(models.NodeOnline)
+		}
+	}()
+	select {
+	case <-done:
+		w.preHandled = true
+	case <-time.After(3 * time.Second):
+	}
+}
+
 // waitWindowStep waits for a replica call whose suspend window received the online notification.
 // It only judges parked / not parked: the call finishing (released) or, after the handler has
 // returned, still not finished a generous while later (the wake-up was lost).
@@ -919,7 +950,7 @@ func (w *world) apply(op string, pre obs) (string, *peer, error) {
 	}
 	var p *peer
 	switch ws[0] {
-	case "step", "online", "steponl":
+	case "step", "online", "steponl", "steppre":
 		if len(ws) != 3 || !isFault(ws[2]) {
 			return "bad-op", nil, nil
 		}
@@ -944,7 +975,7 @@ func (w *world) apply(op string, pre obs) (string, *peer, error) {
 	default:
 		return "bad-op", nil, nil
 	}
-	if (ws[0] == "step" || ws[0] == "online" || ws[0] == "steponl" || ws[0] == "frestart" || ws[0] == "flose" || ws[0] == "fclose" || ws[0] == "offline" || ws[0] == "join") && p == nil {
+	if (ws[0] == "step" || ws[0] == "online" || ws[0] == "steponl" || ws[0] == "steppre" || ws[0] == "frestart" || ws[0] == "flose" || ws[0] == "fclose" || ws[0] == "offline" || ws[0] == "join") && p == nil {
 		return "bad-op", nil, nil
 	}
 	if ws[0] == "append" && ws[1] != "-" {
@@ -1030,6 +1061,26 @@ func (w *world) apply(op string, pre obs) (string, *peer, error) {
 		}
 		p.pending = nil
 		return "idle", p, w.join(p)
+	case "steppre":
+		if !p.stopped && p.pending == nil && pre.p[p.idx()].chanSt != "ready" && !p.live {
+			// the replica call's liveness test finds the follower offline; the hook at the yield point between
+			// that test and the isSuspend CAS lets the state manager handle the follower's online event first
+			w.resetStepFlags(ws[2])
+			w.prePeer, w.preFired, w.preHandled = p, false, false
+			out, err := w.waitStep(p, w.startStep(p))
+			w.prePeer = nil
+			if err == nil && !w.preFired {
+				err = errors.New("the window between the liveness test and the suspend mark was not reached")
+			}
+			if p.wasOffline {
+				p.wasOffline, p.sawOffOn = false, true
+			}
+			if err == nil && out == "parked" && p.live && w.preHandled {
+				p.parkedLive = true
+			}
+			return out, p, err
+		}
+		fallthrough
 	case "steponl":
 		if !p.stopped && p.pending == nil && pre.p[p.idx()].chanSt != "ready" && !p.live {
 			// the replica call finds the follower offline and marks itself suspended; the hook at the yield
@@ -1265,6 +1316,12 @@ func (w *world) check(c *core.Ctx, op, out string, ep *peer, pre, post obs) {
 		if mine && p.lostWake && strings.HasPrefix(op, "steponl") {
 			fail("online-notification-lost", fmt.Sprintf("%q: NodeOnline was delivered between the loop's isSuspend CAS and its receive on r.suspend; the handler returned, the loop is still parked (isSuspend=%v) and nothing will wake it", op, po.susp))
 		}
+		// (4b') an online notification handled just BEFORE the loop marks itself suspended must not leave the loop
+		// parked: the follower is live, no further notification will come
+		if mine && strings.HasPrefix(op, "steppre") && p.parkedLive {
+			p.parkedLive = false
+			fail("online-notification-before-suspend-mark-lost", fmt.Sprintf("%q: NodeOnline was handled between IsReady's liveness test (GetLiveNode: not live) and its isSuspend CAS: the handler's CAS(true,false) found the flag still false and did nothing; the loop then marked itself suspended and blocks on r.suspend (isSuspend=%v) although the follower is live — nothing wakes it until the follower goes offline and online once more", op, po.susp))
+		}
 		// (4c) after a leader restart every follower that has a consumer group in the leader's log has its
 		// replication channel again (replicator + node-online watcher), whether it is online right now or
 		// not — otherwise nothing will ever resume it
@@ -1368,14 +1425,18 @@ func genCase(rng *rand.Rand, tier string, idx int) []string {
 			if rng.Intn(3) > 0 {
 				ops = append(ops, "step "+x+" send", "offline "+x)
 			}
-			ops = append(ops, "steponl "+x+" none")
+			if rng.Intn(3) == 0 {
+				ops = append(ops, "steppre "+x+" none") // ... or just before the call marks itself suspended
+			} else {
+				ops = append(ops, "steponl "+x+" none")
+			}
 		case r < 98:
 			ops = append(ops, "join "+who())
 		default:
 			ops = append(ops, "expire")
 		}
 		if malformed && rng.Intn(6) == 0 {
-			bad := []string{"step a bogus", "step c none", "append zz", "append", "lrestore x", "lrestore -1", "online a", "restart", "append A1", "step none", "flose", "expire now", "join", "join c", "step a putt", "steponl a", "steponl c none", "fclose", "fclose c"}
+			bad := []string{"step a bogus", "step c none", "append zz", "append", "lrestore x", "lrestore -1", "online a", "restart", "append A1", "step none", "flose", "expire now", "join", "join c", "step a putt", "steponl a", "steponl c none", "fclose", "fclose c", "steppre a", "steppre c none", "steppre a nothing"}
 			ops = append(ops, bad[rng.Intn(len(bad))])
 		}
 	}
@@ -1428,6 +1489,11 @@ var fixedCases = [][]string{
 	// and removed): idle during the outage, and with messages arriving during the outage (the loop parks)
 	{"append a0", "step a none", "offline a", "online a none", "append a1", "step a none", "step a none",
 		"offline a", "append a2", "step a none", "online a none", "step a none", "step a none"},
+	// 13: known finding: the follower's online notification is handled between IsReady's liveness test and its
+	// isSuspend CAS (yield point c08-offline-seen): the loop parks although the follower is live; replica calls
+	// do nothing; only a further offline -> online bounce of the follower releases it (then the backlog arrives)
+	{"append a0", "step a none", "append a1", "step a send", "offline a", "steppre a none", "append a2", "step a none",
+		"offline a", "online a none", "step a none", "step a none"},
 }
 
 var curWorld *world
@@ -1437,6 +1503,11 @@ func (area) Run(c *core.Ctx) error {
 		if id == "c08-suspend-marked" {
 			if w := curWorld; w != nil {
 				w.windowHook()
+			}
+		}
+		if id == "c08-offline-seen" {
+			if w := curWorld; w != nil {
+				w.preHook()
 			}
 		}
 	})
